@@ -282,6 +282,57 @@ pub fn shared(seed: u64, nthreads: usize, ncalls: usize, out: &mut Vec<Value>) {
     }
 }
 
+/// create an instance in a helper thread and wait for it at most `limit_ms`: a creation that never returns is data
+/// ("timeout"), not a hung harness (the helper thread is then left behind)
+#[cfg(feature = "pmtree")]
+fn timed_new(depth: usize, cfg: &Value, limit_ms: u64) -> (Result<RLN, (String, String)>, u64) {
+    let (tx, rx) = std::sync::mpsc::channel::<Shared<Result<Result<RLN, String>, String>>>();
+    let cfg = cfg.clone();
+    let t0 = Instant::now();
+    std::thread::spawn(move || {
+        quiet_panics();
+        let r = catch(AssertUnwindSafe(|| new_rln(depth, &cfg).map_err(|e| e.to_string().chars().take(200).collect::<String>())));
+        let _ = tx.send(Shared(r));
+    });
+    let r = rx.recv_timeout(Duration::from_millis(limit_ms));
+    let ms = t0.elapsed().as_millis() as u64;
+    match r {
+        Ok(Shared(Ok(Ok(r)))) => (Ok(r), ms),
+        Ok(Shared(Ok(Err(e)))) => (Err(("err".into(), e)), ms),
+        Ok(Shared(Err(m))) => (Err(("panic".into(), m)), ms),
+        Err(_) => (Err(("timeout".into(), format!("no answer after {limit_ms} ms"))), ms),
+    }
+}
+
+/// re-creation on a location that holds a tree of ANOTHER depth (a node restarted with a changed configuration):
+/// whatever the new instance contains, the call must come back within the bound, and so must the next one
+#[cfg(feature = "pmtree")]
+pub fn regeometry(dir: &str, out: &mut Vec<Value>) {
+    let path = format!("{dir}/regeom-db");
+    let _ = std::fs::remove_dir_all(&path);
+    let cfg = json!({"path": path, "temporary": false});
+    for (k, depth) in [10usize, 10, 12, 8, 12, 20, 10].iter().enumerate() {
+        let (r, ms) = timed_new(*depth, &cfg, 40_000);
+        match r {
+            Ok(mut r) => {
+                let _ = r.set_leaf(k, Cursor::new(enc_fr(&Fr::from(k as u64 + 1))));
+                if k % 2 == 0 {
+                    let _ = r.flush();
+                }
+                out.push(json!({"t": "regeom", "n": k, "depth": depth, "res": "ok", "ms": ms}));
+                drop(r);
+            }
+            Err((res, msg)) => {
+                out.push(json!({"t": "regeom", "n": k, "depth": depth, "res": res, "ms": ms, "msg": msg}));
+                if res == "timeout" {
+                    break; // the helper thread may still hold the location
+                }
+            }
+        }
+    }
+    let _ = std::fs::remove_dir_all(&path);
+}
+
 #[cfg(feature = "pmtree")]
 pub fn reopen(dir: &str, n: usize, out: &mut Vec<Value>) {
     let path = format!("{dir}/reopen-db");
